@@ -11,11 +11,12 @@
 (*   leaf tree: {f: "pk", k} | {f: "multi_a", m, keys, sorted}             *)
 (*   key: {sec: hex} | {node: hex of the 78-byte extended key, path: [hex  *)
 (*        index..], wild: 0 none | 1 /* | 2 /*h}                           *)
+(*        | {musig: [key..], path: [hex index..], wild: 0 | 1}  (BIP390)   *)
 (* ScriptsAt(d, i) is the list of output scripts at index i, assembled     *)
 (* from the BIP32 derivation of every key and the standard templates.      *)
 (* The checksum is BIP380's.                                               *)
 (***************************************************************************)
-EXTENDS BIP32, Address, Taproot, FiniteSets
+EXTENDS BIP32, Address, Taproot, MuSig2, FiniteSets
 
 \* ---- BIP380 checksum ----
 InputCharset == Utf8("0123456789()[],'/*abcdefgh@:$%{}IJKLMNOPQRSTUVWXYZ&+-.;<=>?!^_|~ijklmnopqrstuvwxyzABCDEFGH`#") \o <<34, 92, 32>>
@@ -48,8 +49,23 @@ ChecksummedOK(text) ==
 IdxOf(h) == BFromBytes(FromHex(h))
 H31 == BPow2(31)
 \* the compressed public key of a key expression at index i (a TLC integer < 2^31); <<>> when the derivation fails
+\* BIP390 musig(K1,..,Kn)[/path][/*]: the participants (each at index i when it is itself ranged) are sorted as BIP327's KeySort
+\* sorts them and aggregated; a path after the parenthesis is BIP328's: the aggregate key is the key of a synthetic extended public
+\* key with a fixed chain code, derived along unhardened steps
+Bip328ChainCode == FromHex("868087ca02a6f974c4598924c36b57762d32cb45717167e300622c7167e38965")
+RECURSIVE KeyAt(_, _)
 KeyAt(k, i) ==
   IF "sec" \in DOMAIN k THEN FromHex(k.sec)
+  ELSE IF "musig" \in DOMAIN k THEN
+       LET parts == [j \in 1..Len(k.musig) |-> KeyAt(k.musig[j], i)] IN
+       IF \E j \in 1..Len(parts) : parts[j] = << >> THEN << >>
+       ELSE LET agg == KeyAgg(C1, HF("sha256"), SortSeq(parts, LAMBDA a, b : BLt(BFromBytes(a), BFromBytes(b)))).Q
+                path == [j \in 1..Len(k.path) |-> IdxOf(k.path[j])] \o (IF k.wild = 0 THEN << >> ELSE <<B(i)>>) IN
+            IF agg.inf THEN << >>
+            ELSE IF path = << >> THEN SerP(agg)
+            ELSE LET node == Derive([ok |-> TRUE, version |-> FromHex("0488b21e"), depth |-> 0, fp |-> <<0, 0, 0, 0>>, index |-> <<0, 0, 0, 0>>,
+                                     chain |-> Bip328ChainCode, key |-> SerP(agg)], path) IN
+                 IF node.ok THEN SerP(PubPoint(node)) ELSE << >>
   ELSE LET path == [j \in 1..Len(k.path) |-> IdxOf(k.path[j])] \o (IF k.wild = 0 THEN << >> ELSE IF k.wild = 1 THEN <<B(i)>> ELSE <<BAdd(B(i), H31)>>)
            node == Derive(NodeOf(FromHex(k.node)), path)
        IN IF node.ok THEN SerP(PubPoint(node)) ELSE << >>
